@@ -36,7 +36,7 @@ ODD = ['int', 'str', 'none', 'object', 'func', 'list', 'builtin_cls',
        'pb_attrerror_provides_raises',
        'conform_prop_valueerror', 'conform_prop_attrerror',
        'conform_typeerror', 'named_none', 'named_int', 'named_like_I0',
-       'iface_noname']
+       'iface_noname', 'providedBy_proxy']
 
 _peer = {'proc': None}
 
